@@ -104,14 +104,75 @@ def zip_variants(data, fmt, tier):
             out.append(V("many-members", "plain", extra_members=[NewMember("many/%04d%s" % (i, ext), b"%d" % i) for i in range(1500)]))
             out.append(V("prefix-abs+gap+comment", "prefixed", prefix=STUB, gap_after=1, gap=b"junk" * 5, comment=b"c"))
             out.append(V("prefix-64k", "prefixed", prefix=STUB * 1000))
+    if fmt == "vsix":
+        sigpart = lambda n: n == "_rels/.rels" or n.startswith("package/services/digital-signature/")
+        RELNS = "http://schemas.openxmlformats.org/package/2006/relationships"
+        rootrels = ('<?xml version="1.0" encoding="UTF-8"?><Relationships xmlns="%s"><Relationship Target="/extension.vsixmanifest" Id="R1" '
+                    'Type="http://schemas.microsoft.com/developer/vsx-schema/2011/manifest" /><Relationship Target="/catalog.json" Id="R2" '
+                    'Type="urn:c03:catalog" /></Relationships>' % RELNS).encode()
+        partrels = ('<?xml version="1.0" encoding="UTF-8"?><Relationships xmlns="%s"><Relationship Target="/manifest.json" Id="P1" Type="urn:c03:related" />'
+                    '</Relationships>' % RELNS).encode()
+        out.append(V("unsigned", "unsigned", drop=sigpart))
+        out.append(V("unsigned+root-relationships", "relationships", drop=sigpart, extra_members=[NewMember("_rels/.rels", rootrels, deflate=True)], insert_at=0))
+        out.append(V("unsigned+part-relationships", "relationships", drop=sigpart, extra_members=[NewMember("_rels/extension.vsixmanifest.rels", partrels, deflate=True)], insert_at=0))
+        ct = [m for m in R.zip_parse(data, R.View())[0] if m.name == "[Content_Types].xml"][0].data
+        ct2 = ct.replace(b"</Types>", b'<Override PartName="/manifest.json" ContentType="application/x-c03-custom" /></Types>')
+        out.append(V("content-types-override", "content-types", drop=lambda n: n == "[Content_Types].xml", extra_members=[NewMember("[Content_Types].xml", ct2, deflate=True)]))
+    if fmt == "appx":
+        ct = [m for m in R.zip_parse(data, R.View())[0] if m.name == "[Content_Types].xml"][0].data
+        idx = [m.name for m in R.zip_parse(data, R.View())[0]].index("[Content_Types].xml")
+        ct2 = ct.replace(b"image/png", b"image/x-c03-png")
+        ct3 = ct.replace(b"</Types>", b'<Override PartName="/resources.pri" ContentType="application/x-c03-custom" /></Types>')
+        for nm, blob in (("content-types-custom-default", ct2), ("content-types-override", ct3)):
+            if blob != ct:
+                out.append(V(nm, "content-types", drop=lambda n: n == "[Content_Types].xml", extra_members=[NewMember("[Content_Types].xml", blob, deflate=True)], insert_at=idx))
     if fmt in ("jar", "apk"):
+        names = [m.name for m in R.zip_parse(data, R.View())[0]]
+        mi = names.index("META-INF/MANIFEST.MF")
+        payload_name = [n for n in names if not n.startswith("META-INF/")][0]
+        rich = ("Manifest-Version: 1.0\r\nCreated-By: 17.0.1 (C03 harness)\r\nMain-Class: com.example.Main\r\nClass-Path: lib/a.jar lib/b.jar lib/a-very-long-name-that-forces-"
+                "\r\n a-continuation-line-because-it-exceeds-72-bytes.jar\r\nX-Custom-Attr: caf\u00e9 value\r\nMulti-Release: true\r\n\r\n"
+                "Name: %s\r\nContent-Type: text/plain\r\nSealed: true\r\n\r\nName: com/example/\r\nSealed: true\r\nImplementation-Title: example\r\n\r\n" % payload_name).encode("utf-8")
+        out.append(V("manifest-rich", "manifest", drop=lambda n: n == "META-INF/MANIFEST.MF", extra_members=[NewMember("META-INF/MANIFEST.MF", rich, deflate=True)], insert_at=mi))
+        lfman = rich.replace(b"\r\n", b"\n")
+        out.append(V("manifest-lf-no-final-blank-line", "manifest", drop=lambda n: n == "META-INF/MANIFEST.MF",
+                     extra_members=[NewMember("META-INF/MANIFEST.MF", lfman[:-1], deflate=False)], insert_at=mi))
         out.append(V("first-member-not-manifest", "plain", extra_members=[NewMember("0first.txt", b"first")], insert_at=0))
     return out
 
 
 # ---------------------------------------------------------------------------------------------------------------- PE
+def pe_layout(data):
+    pe = R.u32(data, 0x3c)
+    opt = pe + 24
+    magic = R.u16(data, opt)
+    dd = opt + (96 if magic == 0x10b else 112)
+    return opt + 64, dd + 32
+
+
+def pe_fix_checksum(data):
+    cks, _ = pe_layout(data)
+    b = bytearray(data)
+    struct.pack_into("<I", b, cks, R.pe_checksum(bytes(b), cks))
+    return bytes(b)
+
+
+def pe_strip(data):
+    """remove an attribute certificate table (written from the Authenticode document: table at the end of the file, directory entry 4)"""
+    cks, ent = pe_layout(data)
+    va, sz = R.u32(data, ent), R.u32(data, ent + 4)
+    if not sz:
+        return data
+    b = bytearray(data[:va] + data[va + sz:])
+    struct.pack_into("<II", b, ent, 0, 0)
+    return pe_fix_checksum(bytes(b))
+
+
 def pe_variants(data, tier):
     out = []
+    if pe_strip(data) != data:
+        data = pe_strip(data)
+        out.append(("signature-stripped", "stripped", data))
     for n in ([1, 7, 8, 9, 100, 4096] if tier == "quick" else [1, 2, 3, 4, 5, 6, 7, 8, 9, 15, 16, 17, 100, 511, 512, 513, 4096, 70001]):
         ov = (b"OVERLAY-" * (n // 8 + 1))[:n]
         out.append(("overlay-%d" % n, "overlay", data + ov))
@@ -142,7 +203,7 @@ def pe_variants(data, tier):
     if soh > hdr_end + 8:
         b = bytearray(data)
         b[hdr_end + 4:hdr_end + 8] = b"SLCK"
-        out.append(("header-slack-nonzero", "padding", bytes(b)))
+        out.append(("header-slack-nonzero", "padding", pe_fix_checksum(bytes(b))))
     return out
 
 
@@ -402,7 +463,7 @@ def deb_variants(data, tier):
            ("odd-sized-extra-member", "odd-size", ar_build(ms + [("_extra", b"odd", meta)])),
            ("foreign-gpgbuilder-member", "foreign-sig", ar_build(ms + [("_gpgbuilder", b"-----BEGIN PGP SIGNATURE-----\nnot really\n-----END PGP SIGNATURE-----\n", meta)])),
            ("foreign-gpgorigin-odd", "foreign-sig", ar_build(ms + [("_gpgorigin", b"xyz", meta)])),
-           ("gpgorigin-in-the-middle", "foreign-sig", ar_build(ms[:2] + [("_gpgorigin", b"wxyz", meta)] + ms[2:])),
+           ("gpgorigin-in-the-middle", "foreign-sig", ar_build(ms[:2] + [("_gpgorigin", b"wxyz!", meta)] + ms[2:])),
            ("member-name-with-slash", "names", ar_build([(n + "/" if i == 2 else n, b, m) for i, (n, b, m) in enumerate(ms)]))]
     return out
 
@@ -433,4 +494,54 @@ def pgp_texts(data, tier):
            ("trailing-whitespace", "whitespace", b"line one   \nline two\t\n\n\n"),
            ("empty", "tiny", b""),
            ("binary", "binary", bytes(range(256)) * 3)]
+    return out
+
+
+# ---------------------------------------------------------------------------------------------------------------- seeded random variants
+def random_variants(fmt, data, rng, n, ext=None):
+    """n random inputs of the 'plain' classes (no prefix/gap/comment: those classes have their own named variants)"""
+    out = []
+    for i in range(n):
+        tag = "random-%d-%d" % (rng.seed_value, i)
+        if fmt in ("jar", "apk", "vsix"):
+            e = ".json" if fmt == "vsix" else rng.choice([".txt", ".class", ".properties", ".bin"])
+            ms = []
+            for k in range(rng.randint(1, 12)):
+                depth = rng.randint(0, 3)
+                name = "/".join("".join(rng.choice("abcdefghijklmnopqrstuvwxyzABCDEFGH0123456789_-") for _ in range(rng.randint(1, 20))) for _ in range(depth + 1))
+                size = rng.choice([0, 1, 2, 63, 64, 65, 1000, 4095, 4096, 4097, rng.randint(0, 70000)])
+                body = bytes(rng.getrandbits(8) for _ in range(min(size, 256))) * (size // 256 + 1)
+                ms.append(NewMember("r%d/%s%s" % (k, name, e), body[:size], deflate=rng.random() < 0.6, dd=rng.random() < 0.5,
+                                    extra=(struct.pack("<HH", 0xcafe, 4) + b"\1\2\3\4") if rng.random() < 0.2 else b"",
+                                    eattr=rng.choice([0, 0x81a40000, 0x81ed0000]), comment=b"c" * rng.choice([0, 0, 5])))
+            at = rng.choice([None, None, 0]) if fmt != "apk" else None
+            out.append((tag, "random", zip_relayout(data, fmt, extra_members=ms, insert_at=at)))
+        elif fmt == "pe-coff":
+            base = pe_strip(data)
+            nbytes = rng.choice([rng.randint(1, 64), rng.randint(1, 5000), rng.randint(1, 70000)])
+            out.append((tag, "random", base + bytes(rng.getrandbits(8) for _ in range(min(nbytes, 997))) * (nbytes // 997 + 1)))
+            out[-1] = (tag, "random", out[-1][2][:len(base) + nbytes])
+        elif fmt == "msi":
+            names = set()
+            while len(names) < rng.randint(1, 40):
+                names.add("".join(rng.choice("ABCDEFGHIJKLMNOPQRSTUVWXYZ0123456789_.") for _ in range(rng.randint(1, 31))))
+            tree = []
+            for nm in sorted(names):
+                size = rng.choice([1, 63, 64, 65, 4095, 4096, 4097, rng.randint(1, 300), rng.randint(1, 20000)])
+                tree.append((nm, (hashlib.sha256(nm.encode()).digest() * (size // 32 + 1))[:size]))
+            # make sure a mini stream exists (the no-ministream class has its own named variant)
+            tree.append(("ZZMINI", b"m" * rng.randint(1, 200)))
+            out.append((tag, "random", cfb_build(tree, sector_shift=rng.choice([9, 9, 12]), pad_sectors=rng.choice([0, 0, 2]))))
+        elif fmt == "cab":
+            files = [("f%d_%s.dat" % (k, "x" * rng.randint(0, 30)), bytes(rng.getrandbits(8) for _ in range(64)) * rng.randint(0, 600)) for k in range(rng.randint(1, 8))]
+            out.append((tag, "random", cab_build(files, folders=rng.randint(1, 3), mszip=rng.random() < 0.5, block=rng.choice([32768, 32768, 1000, 17]))))
+        elif fmt == "ps":
+            eols = ["\r\n", "\n", "\r"]
+            lines = []
+            for k in range(rng.randint(0, 30)):
+                lines.append("".join(rng.choice("abc $={}()'\"#-/*<>!\t é€") for _ in range(rng.randint(0, 60))) + rng.choice(eols + ["\r\n"] * 3))
+            text = "".join(lines) + rng.choice(["", "last line without eol"])
+            enc = rng.choice(["utf-8", "utf-8", "bom", "utf-16"])
+            blob = text.encode("utf-8") if enc == "utf-8" else b"\xef\xbb\xbf" + text.encode("utf-8") if enc == "bom" else b"\xff\xfe" + text.encode("utf-16-le")
+            out.append((tag, "random", blob))
     return out
